@@ -243,7 +243,7 @@ func TestC19(t *testing.T) {
 		[]string{"targets converted successfully before a failing target may already have been written (the statement only speaks about the failing target)", "stray trailing arguments are not asserted"})
 	defer r.Flush()
 	_ = e
-	gcfg := gen.Cfg{MaxStmts: 10, MaxDepth: 2, ExprDepth: 2, Funcs: true, MaxFuncs: 2, Slices: true, StrOps: true, LoopBudget: 4, IO: true, Panics: true, ErrSpell: true}
+	gcfg := gen.Cfg{MaxStmts: 10, MaxDepth: 2, ExprDepth: 2, Funcs: true, MaxFuncs: 2, Slices: true, StrOps: true, LoopBudget: 4, IO: true, Panics: true, ErrSpell: true, BareExpr: true}
 	checkRapid(t, r, func(t *rapid.T) {
 		c := cliCase{Kind: "cli", Property: "C19", Files: map[string]string{}, Pre: map[string]string{}}
 		name := []string{"a.tsh", "a.b.c.tsh", "noext", "sp ace.tsh", ".hidden.tsh", "prog.tsh", "UPPER.TSH", "x.y"}[gen.Uniform(0, 7).Draw(t, "name")]
